@@ -12,8 +12,11 @@ CLAIMS = {
  "C13": ("Contracts on the real json.Number comparator: Cmp/Equal/GreaterThan/.../LengthOfFractionalPart and their helpers "
          "(cmpInt, cmpFra, cmpAbs, not) are proved, for all well-formed numbers of any length, to return the sign of the exact "
          "difference of the denoted decimals (digit-string value natval, cross-scaled fractions; adequacy w.r.t. Q proved in Lean), "
-         "with every index, conversion and arithmetic operation safe. Proof level because the statement quantifies over all inputs "
-         "and all loop iterations; the grammar/normal-form half (NewNumber/Scan) is listed under not_covered until its contracts discharge.",
+         "with every index, conversion and arithmetic operation safe. NewNumber/Scan is proved to accept exactly the language of "
+         "the RFC 8259 number automaton NUM (coupling invariant between the nine scanner states and the automaton, unbounded length; "
+         "two recorded findings: 0eN rejected, exponents above 2^40), to return a number in normal form (digits only, no leading zero, "
+         "no trailing fraction zero, zero unsigned) with LengthOfFractionalPart = its fraction length, and never to panic outside the recorded "
+         "exponent-magnitude finding. Not decided: that the normalised digits denote the text's value (exponent shifting) and String().",
          "5 C13", "weakest-precondition VCs over go/ssa + SMT (deductive, loop invariants, lemma hints)"),
  "C19": ("Every method of the three generated ordered maps (RuleASTNodes, ASTNodes, Constraints: Set, Update, Get, GetValue, Has, Len, "
          "Delete, Filter, Find, Each, EachSafe, Map) and of StringSet (Add, Has, Len, Data) is proved against the insertion-ordered "
